@@ -192,11 +192,17 @@ func NewCoreRun(sch *Schedule) *CoreRun {
 	if b, _ := sch.Cfg["AutoCkpt"].(bool); b {
 		c.opt.CheckpointAuto = true
 	}
+	if b, _ := sch.Cfg["ReadOnly"].(bool); b {
+		c.opt.ReadOnly = true
+	}
+	if b, _ := sch.Cfg["HookScrapes"].(bool); b {
+		c.opt.HookScrapes = true
+	}
 	if i0, ok := sch.Cfg["Info0"].([]any); ok && len(i0) == 2 {
 		c.opt.Member, c.opt.Total = num(i0[0]), num(i0[1])
 	}
 	// events flagged "old" carry a CAS before skipUntil
-	c.skip = time.Unix(1700000000, 0)
+	c.skip = time.Unix(skipSecond, 500000000)
 	c.opt.SkipUntil = &c.skip
 	c.wire = make([][]WireEv, nvb)
 	return c
@@ -214,11 +220,15 @@ func (c *CoreRun) setHigh() {
 	}
 }
 
+// skipUntil is half a second into second T; an "old" event carries a CAS inside second T (its event time, which has
+// whole seconds only, is T: before skipUntil), any other event a CAS in second T+1: both classes sit at the boundary.
+const skipSecond = 1700000000
+
 func (c *CoreRun) cas(old bool) uint64 {
 	if old {
-		return uint64(1600000000) * 1000000000
+		return uint64(skipSecond)*1000000000 + 900000000
 	}
-	return uint64(1800000000) * 1000000000
+	return uint64(skipSecond+1) * 1000000000
 }
 
 func (c *CoreRun) push(vb int, x WireEv) {
@@ -353,7 +363,7 @@ func (c *CoreRun) exec(l map[string]any) string {
 		for vb := range c.wire {
 			c.wire[vb] = nil
 		}
-		c.r.S.Emit(Ev{"ev": "Boot", "auto": c.opt.CheckpointAuto, "finite": c.opt.Finite, "member": c.r.Opt.Member, "total": c.r.Opt.Total})
+		c.r.S.Emit(Ev{"ev": "Boot", "auto": c.opt.CheckpointAuto, "finite": c.opt.Finite, "member": c.r.Opt.Member, "total": c.r.Opt.Total, "readonly": c.opt.ReadOnly})
 		r := c.r
 		r.S.Go("main", func() {
 			r.Dcp.Start()
@@ -725,13 +735,21 @@ func (c *CoreRun) kill() {
 	c.up = false
 }
 
-func autoLabel(l map[string]any) bool { a := str(l["a"]); return a == "SaveAcquire" || a == "GateOpen" }
+// steps of the library that no gate separates from the step that causes them (the schedule lists them, the driver
+// executes them together with their cause); in read-only metadata mode the whole store phase of a save is one
+var readOnlyRun bool
+
+func autoLabel(l map[string]any) bool {
+	a := str(l["a"])
+	return a == "SaveAcquire" || a == "GateOpen" || (readOnlyRun && a == "SaveRet")
+}
 
 // OnStep, if set, is told when a step begins and when its trace line is complete.
 var OnStep func(begin bool, i int, tl *TraceLine)
 
 // Run executes the schedule and returns the recorded trace.
 func (c *CoreRun) Run() []TraceLine {
+	readOnlyRun = c.opt.ReadOnly
 	for i := 0; i < len(c.sch.Steps); i++ {
 		st := &c.sch.Steps[i]
 		if OnStep != nil {
